@@ -2057,6 +2057,137 @@ theorem sel_indexed (p : α → Nat → Bool) (second : Bool) (xs : List α) (i 
     cases second <;> cases h : p v i <;> simp [h]
 end WinGrp.Part
 
+namespace WinGrp
+variable {α κ β : Type}
+
+/-! ### the effect log only grows -/
+def OutExt (s s' : St κ β) : Prop := ∃ l, s'.out = s.out ++ l
+theorem OutExt.refl (s : St κ β) : OutExt s s := ⟨[], by simp⟩
+theorem OutExt.trans {a b c : St κ β} (h1 : OutExt a b) (h2 : OutExt b c) : OutExt a c := by
+  obtain ⟨l1, e1⟩ := h1; obtain ⟨l2, e2⟩ := h2; exact ⟨l1 ++ l2, by rw [e2, e1, List.append_assoc]⟩
+theorem OutExt_of_eq {s s' : St κ β} (h : s'.out = s.out) : OutExt s s' := ⟨[], by simp [h]⟩
+theorem OutExt_emit (s : St κ β) (e) : OutExt s (emit s e) := ⟨[e], rfl⟩
+theorem OutExt.mem {s s' : St κ β} (h : OutExt s s') {e} (he : e ∈ s.out) : e ∈ s'.out := by
+  obtain ⟨l, hl⟩ := h; rw [hl]; exact List.mem_append_left _ he
+
+macro "oe_peel" : tactic => `(tactic| first
+  | exact OutExt.refl _
+  | exact OutExt_of_eq rfl
+  | refine OutExt.trans ?_ (OutExt_emit _ _))
+
+theorem OutExt_of_OutU {s s' : St κ β} (h : OutU s s') : OutExt s s' := by
+  obtain ⟨l, hl, _⟩ := h; exact ⟨l, hl⟩
+
+theorem OutExt_closeDur (s : St κ β) (g : Nat) : OutExt s (closeDur s g) := OutExt_of_OutU (OutU_closeDur s g)
+theorem OutExt_gdDispose (s : St κ β) : OutExt s (gdDispose s) := OutExt_of_OutU (OutU_gdDispose s)
+theorem OutExt_rcdDispose (s : St κ β) : OutExt s (rcdDispose s) := OutExt_of_OutU (OutU_rcdDispose s)
+
+theorem OutExt_rcdRelease (s : St κ β) : OutExt s (rcdRelease s) := by
+  unfold rcdRelease; split
+  · exact OutExt.refl _
+  · simp only; split
+    · refine OutExt.trans ?_ (OutExt_gdDispose _); exact OutExt_of_eq rfl
+    · exact OutExt_of_eq rfl
+
+theorem OutExt_subEnd (s : St κ β) (g : Nat) : OutExt s (subEnd s g) := by
+  unfold subEnd; split
+  · simp only; split
+    · refine OutExt.trans ?_ (OutExt_rcdRelease _); exact OutExt_of_eq rfl
+    · exact OutExt_of_eq rfl
+  · exact OutExt.refl _
+
+theorem OutExt_writerNext (s : St κ β) (g : Nat) (v : β) : OutExt s (writerNext s g v) := by
+  unfold writerNext; split
+  · split
+    · exact OutExt.refl _
+    · simp only; split
+      · refine OutExt.trans ?_ (OutExt_emit _ _)
+        refine OutExt.trans (b := emit (modGrp s g _) _) ?_ (OutExt_of_eq rfl)
+        refine OutExt.trans ?_ (OutExt_emit _ _); exact OutExt_of_eq rfl
+      · refine OutExt.trans ?_ (OutExt_emit _ _); exact OutExt_of_eq rfl
+  · exact OutExt.refl _
+
+theorem OutExt_writerTerm (s : St κ β) (g : Nat) (n : Notif β) : OutExt s (writerTerm s g n) := by
+  unfold writerTerm; split
+  · split
+    · exact OutExt.refl _
+    · simp only; split
+      · refine OutExt.trans ?_ (OutExt_subEnd _ _)
+        refine OutExt.trans ?_ (OutExt_emit _ _)
+        refine OutExt.trans (b := emit (modGrp s g _) _) ?_ (OutExt_of_eq rfl)
+        refine OutExt.trans ?_ (OutExt_emit _ _); exact OutExt_of_eq rfl
+      · refine OutExt.trans ?_ (OutExt_emit _ _); exact OutExt_of_eq rfl
+  · exact OutExt.refl _
+
+theorem OutExt_foldl_writerTerm (s : St κ β) (l : List Nat) (n : Notif β) :
+    OutExt s (l.foldl (fun s g => writerTerm s g n) s) := by
+  induction l generalizing s with
+  | nil => exact OutExt.refl _
+  | cons a l ih => exact (OutExt_writerTerm s a n).trans (ih _)
+
+theorem OutExt_termAll (s : St κ β) (n : Notif β) : OutExt s (termAll s n) := OutExt_foldl_writerTerm _ _ _
+
+theorem OutExt_outerTerm (s : St κ β) (n) : OutExt s (outerTerm s n) := by
+  unfold outerTerm; split
+  · exact OutExt.refl _
+  · refine OutExt.trans ?_ (OutExt_rcdDispose _)
+    refine OutExt.trans ?_ (OutExt_emit _ _); exact OutExt_of_eq rfl
+
+theorem OutExt_errorAll (s : St κ β) (e : Err) : OutExt s (errorAll s e) :=
+  (OutExt_termAll s _).trans (OutExt_outerTerm _ _)
+
+theorem OutExt_subscribeGroup (s : St κ β) (g : Nat) : OutExt s (subscribeGroup s g) := by
+  unfold subscribeGroup; split
+  · split
+    · exact OutExt.refl _
+    · simp only; split
+      · exact OutExt_of_eq rfl
+      · refine OutExt.trans ?_ (OutExt_subEnd _ _)
+        refine OutExt.trans ?_ (OutExt_emit _ _); exact OutExt_of_eq rfl
+  · exact OutExt.refl _
+
+theorem OutExt_expire (cfg : Cfg α κ β) (s : St κ β) (g : Nat) : OutExt s (expire cfg s g) := by
+  unfold expire; split
+  · split
+    · exact OutExt_emit _ _
+    · simp only; split
+      · refine OutExt.trans ?_ (OutExt_writerTerm _ _ _); exact OutExt_of_eq rfl
+      · refine OutExt.trans ?_ (OutExt_closeDur _ _)
+        refine OutExt.trans ?_ (OutExt_writerTerm _ _ _); exact OutExt_of_eq rfl
+  · exact OutExt.refl _
+
+theorem OutExt_durFire (cfg : Cfg α κ β) (s : St κ β) (g : Nat) (n : Notif Unit) : OutExt s (durFire cfg s g n) := by
+  cases n with
+  | error e => exact (OutExt_errorAll s e).trans (OutExt_closeDur _ _)
+  | next v => exact (OutExt_expire cfg s g).trans (OutExt_closeDur _ _)
+  | completed => exact (OutExt_expire cfg s g).trans (OutExt_closeDur _ _)
+
+theorem OutExt_pushElem (cfg : Cfg α κ β) (s : St κ β) (g : Nat) (x : α) : OutExt s (pushElem cfg s g x) := by
+  unfold pushElem; split
+  · exact OutExt_errorAll _ _
+  · exact OutExt_writerNext _ _ _
+
+/-- the announcement of a new group is in the effect log after `announce` (outer subscriber not stopped) -/
+theorem announce_mem (cfg : Cfg α κ β) (s : St κ β) (g : Nat) (k : κ) (ho : s.outStopped = false) :
+    Eff.outer (.next (g, k)) ∈ (announce cfg s g k).out := by
+  unfold announce
+  simp only [ho, Bool.false_eq_true, if_false]
+  have h1 : Eff.outer (.next (g, k)) ∈ (if cfg.imm g = true then
+      subscribeGroup (emit (modGrp s g fun r => { r with announced := true }) (Eff.outer (Notif.next (g, k)))) g
+      else emit (modGrp s g fun r => { r with announced := true }) (Eff.outer (Notif.next (g, k)))).out := by
+    split
+    · exact (OutExt_subscribeGroup _ g).mem (by simp)
+    · simp
+  generalize (if cfg.imm g = true then
+      subscribeGroup (emit (modGrp s g fun r => { r with announced := true }) (Eff.outer (Notif.next (g, k)))) g
+      else emit (modGrp s g fun r => { r with announced := true }) (Eff.outer (Notif.next (g, k)))) = s2 at h1
+  split
+  · exact (OutExt_durFire cfg s2 g _).mem h1
+  · split
+    · exact (OutExt_closeDur _ g).mem (by simp [h1])
+    · simp [h1]
+end WinGrp
+
 /-! ## helper definitions and lemmas used directly by the C19 theorems -/
 namespace WinGrp
 variable {α κ β : Type}
